@@ -50,6 +50,10 @@ WITNESSES = [
     ("F37", "import a\n    # \\\n# c\n    # \\\n\x0c"),
     ("F3tail", "# type: ignore\n\n\'\'\'x\n  # z\n\n# tail \'\'\';import m;os = 1 \\\n \t \n\n"),
     ("F40", "x = 1  # c\n\\\ntext \\\n# tail; #!x\n"),
+    ("lastline1", '@dec\ndef f():\n    return """\n# end"""'),
+    ("lastline2", '@a\n@b(1,\n  2)\n@c\nclass K:\n    x = """\n# t\n#"""\ny = 1\n'),
+    ("lastline3", "x = 0\n@dec\nasync def f(p):\n    '''doc\n# end'''\n# real comment\n"),
+    ("lastline4", '@dec\ndef f():\n  x = 1\n  @dec\n  @e\n  def g():\n    return f"""a{x}\n# end"""\n'),
     ("plain", "# 1\nprint(2)\n# 3\n# 4\nprint(5)\nx=[6,\n 7]\n# 8\n"),
     ("lead", "\n\n# c\n\nx=1\n\n\n# d\n\n"),
     ("cont", "x = 1 \\\n\ny = 2\n# c \\\n\nz = 3"),
